@@ -267,6 +267,10 @@ def run_history(sim, script):
     return obs
 
 
+def strip_err(obs):
+    return [{k: v for k, v in o.items() if k != "err"} for o in obs]
+
+
 def untracked_ai_file(script):
     """does an AI session edit a file that is still untracked at that moment (created since the last commit)?"""
     tracked = set(script["base"])
@@ -324,11 +328,11 @@ def scenario(args):
         sim = CSim(base, f"h{idx}v{j}", settings, ctx, where)
         try:
             got = run_history(sim, script)
-            same = (got == ref)
+            same = (strip_err(got) == strip_err(ref))
             v = {"settings": settings, "context": ctx, "where": where, "same": same,
                  "known": known_class(script, settings, ctx)}
             if not same:
-                k = next((i for i, (a, b) in enumerate(zip(ref, got)) if a != b), None)
+                k = next((i for i, (a, b) in enumerate(zip(strip_err(ref), strip_err(got))) if a != b), None)
                 v["first_diff"] = {"commit": k, "baseline": ref[k] if k is not None else None,
                                    "variant": got[k] if k is not None else None}
                 v["log"] = sim.log[-40:]
